@@ -11,7 +11,7 @@
      written at fill time) and the abstract interpreter over a plain byte list.
    Loops run on explicit fuel; exhausting it is the distinct outcome OutOfFuel. *)
 From Coq Require Import NArith ZArith List Bool Arith.
-From FitV Require Import Model.Crc.
+From FitV Require Import Model.Crc Gen.Consts.
 Import ListNotations.
 
 Inductive term := TEOF | TFault.
@@ -176,7 +176,9 @@ Record cst := mk_cst {
   c_fuel : nat
 }.
 
-Definition BUFSZ : nat := 4096.
+(* len(decoder{}.bytes.buf), regenerated from the source (Gen/Consts.v): a change of the buffer size is followed
+   by the model; the simulation theorem only needs it to be positive *)
+Definition BUFSZ : nat := N.to_nat c_bufLen.
 
 (* outcome of one buffered primitive: value and state, or the I/O error with the
    state reached when it occurred, or out of fuel *)
